@@ -144,6 +144,9 @@ func GoType(d TypeDesc) reflect.Type {
 		return reflect.MapOf(reflect.TypeOf(""), GoType(*d.Elem))
 	case "ptr":
 		return reflect.PtrTo(GoType(*d.Elem))
+	case "ifaceptr":
+		// an interface{} target that already holds a pointer to a (zero) Elem
+		return scalarTypes["iface"]
 	case "struct":
 		var fs []reflect.StructField
 		for _, f := range d.Fields {
